@@ -16,7 +16,7 @@ theorem Root.addRule_inv (S : List Rule) (rt : Root) (r : Rule) (hr : r ∈ S) (
   · exact h
   · next hn =>
     split
-    · exact ⟨h.idx, h.nodup, fun q hq => List.mem_cons_of_mem _ (h.names q hq), h.sub⟩
+    · exact h
     · refine ⟨?_, ?_, ?_, ?_⟩
       · simp [buildIdx, List.foldl_append, h.idx]
       · simp only [List.map_append, List.map_cons, List.map_nil]
